@@ -541,7 +541,14 @@ fn cli_worlds_lane(base: u64, n: u64, workers: usize) -> CliLane {
                     break;
                 }
                 let seed = mix(base ^ 0xC11, i);
-                let case: CliCase = vsim::clisim::workload::gen_case(seed, "benign", &params, &mut oracle);
+                let case: CliCase = match std::panic::catch_unwind(std::panic::AssertUnwindSafe(|| vsim::clisim::workload::gen_case(seed, "benign", &params, &mut oracle))) {
+                    Ok(c) => c,
+                    Err(_) => {
+                        out.lock().unwrap().errors.push(format!("seed {}: the harness panicked while generating a case", seed));
+                        oracle = vsim::oracle::Oracle::new();
+                        continue;
+                    }
+                };
                 // odd seeds: one process for a list vs one process per file
                 if i % 2 == 1 {
                     let Some(Step::Inv(inv)) = case.steps.iter().find(|s| matches!(s, Step::Inv(Inv { shape: Shape::Files { mode: Mode::Stdout | Mode::Inplace, paths }, .. }) if paths.len() >= 2)).cloned() else { continue };
@@ -1037,7 +1044,10 @@ fn cmd_run(args: &[String]) -> i32 {
         wall,
         evpath.display()
     );
-    let harness_bad = !st.errors.is_empty() || !b.worker_failures.is_empty() || st.runs == 0;
+    let harness_bad = !st.errors.is_empty() || !b.worker_failures.is_empty() || st.runs == 0 || !cl.errors.is_empty();
+    for e in cl.errors.iter().take(5) {
+        eprintln!("HARNESS-ERROR: CLI lane: {}", e);
+    }
     if harness_bad {
         for e in st.errors.iter().chain(b.worker_failures.iter()).take(10) {
             eprintln!("HARNESS-ERROR: {}", e);
